@@ -146,4 +146,19 @@ PROPS = {
                      'orders NaN differently on the repository toolchain and on Kani\'s nightly).'),
         technique='contract-based deductive verification: Kani complete symbolic harnesses on the real comparison kernel',
     ),
+    'C06': dict(
+        title='Timestamps keep their instant and zone',
+        verus=[],
+        kani=[dict(harness='k_fixed_tz_utc_iff_zero', klass='complete', schema='raw', family='fixed-tz', target='timezone::fixed_timezone', timeout=600)],
+        witness=None,
+        design_ref='DESIGN.md section 4, C06',
+        level_text=('Proof (Kani/CBMC, complete over every offset text +-HH:MM with digits 0-9 0-9 : 0-5 0-9) for the one piece of this '
+                    'property that is libhaystack\'s own code: fixed_timezone maps an RFC 3339 offset to the zone UTC exactly when the offset is '
+                    'zero, so no non-zero offset is silently read as UTC.'),
+        not_decided=('Everything inside chrono/chrono_tz (RFC 3339 parsing, zone database, DST resolution, with_timezone) -- which is where '
+                     '"both sides of every DST transition, all ~600 zones" lives; that the Etc/GMT name carries both hour digits and that '
+                     'offsets with minutes are rejected (the name goes through format!, which CBMC does not finish: 15 min for the full '
+                     'domain, 10 min for +HH:00 only); find_timezone\'s prefix search; the C API constructors.'),
+        technique='contract-based deductive verification: Kani complete symbolic harness over the fixed-format offset strings',
+    ),
 }
